@@ -24,6 +24,8 @@ type c20CLICase struct {
 	// More: the input is a Phylip file of several alignments; the first has L sites, the following ones these
 	// many ("If the input alignment contains several alignments, will process the first one only")
 	More []int `json:"more_alignments,omitempty"`
+	// Threads: --threads (0: not given)
+	Threads int `json:"threads,omitempty"`
 }
 
 func c20CheckCLI(c *mc.Ctx, box *cliBox, cs c20CLICase) {
@@ -54,6 +56,9 @@ func c20CheckCLI(c *mc.Ctx, box *cliBox, cs c20CLICase) {
 		args = []string{"build", "weightboot", "-p", "-i", "@in.phy", "-n", strconv.Itoa(cs.N), "--seed", strconv.Itoa(cs.Seed)}
 	} else if !box.put(c, "in.fa", cliFasta(rowNames, []string{row(0), row(1), row(2)})) {
 		return
+	}
+	if cs.Threads > 0 {
+		args = append(args, "-t", strconv.Itoa(cs.Threads))
 	}
 	var out string
 	var err error
@@ -137,6 +142,14 @@ func c20CLITasks() []mc.Task {
 		for _, more := range [][]int{{25, 7}, {7}, {10}} {
 			for seed := 1; seed <= 2; seed++ {
 				c20CheckCLI(c, box, c20CLICase{CLI: true, L: 10, N: 2, Seed: seed, Out: "stdout", More: more})
+			}
+		}
+		// several threads asked for: as many vectors, each of one weight per site
+		for _, threads := range []int{1, 2, 3, 4, 16} {
+			for _, n := range []int{1, 2, 5, 17} {
+				for _, out := range []string{"stdout", "file"} {
+					c20CheckCLI(c, box, c20CLICase{CLI: true, L: 12, N: n, Seed: 3, Out: out, Threads: threads})
+				}
 			}
 		}
 		for _, L := range []int{3, 4, 10, 100, 455, 456, 700, 2000, 7000, 7500, 30000} { // long lines: several write buffers per line // 9 bytes per weight: 455/456 straddle 4096 bytes per line
